@@ -179,6 +179,24 @@ impl ShellEnvironment {
         visible_vars.into_iter()
     }
 
+    /// Returns an iterator over the variables that have a value: for each name the
+    /// innermost binding that is set. Declared-but-unset bindings are not listed and
+    /// do not hide a set variable of the same name in an outer scope.
+    pub fn iter_set(&self) -> impl Iterator<Item = (&String, &ShellVariable)> {
+        let mut set_vars: HashMap<&String, &ShellVariable> =
+            HashMap::with_capacity(self.entry_count);
+
+        for (_, var_map) in self.scopes.iter().rev() {
+            for (name, var) in var_map.iter().filter(|(_, v)| v.value().is_set()) {
+                if let hash_map::Entry::Vacant(entry) = set_vars.entry(name) {
+                    entry.insert(var);
+                }
+            }
+        }
+
+        set_vars.into_iter()
+    }
+
     /// Returns an iterator over all the variables defined in the environment.
     pub fn iter(&self) -> impl Iterator<Item = (&String, &ShellVariable)> {
         self.iter_using_policy(EnvironmentLookup::Anywhere)
